@@ -47,6 +47,11 @@ func (m *metrics) rec(kind string, v float64, from, to, label string) {
 	if s.lean {
 		return
 	}
+	if kind == "transition" {
+		// a sink may apply a call a moment after it was made: when the library publishes under its mutex that
+		// changes nothing, when it publishes after releasing it, another publisher can get in first
+		s.yield()
+	}
 	s.mu.Lock()
 	s.tr.Mets = append(s.tr.Mets, &MetRec{Seq: s.nextSeq(), T: s.now(), Obj: o.idx, Inst: o.in.idx, Kind: kind, Value: v, From: from, To: to, Label: label})
 	s.mu.Unlock()
